@@ -326,6 +326,7 @@ type VC struct {
 	bvN         int
 	havocKnown  map[string]map[string]bool
 	abstracted  []string // callees without contract (abstracted by havoc)
+	addrTaken   map[types.Object]bool // locals whose address is taken (kept in a cell from their first assignment)
 	boundAssume []string // size bounds assumed by the bounded counterexample search
 	unroll      int      // >0: counterexample search mode (loops unrolled, never used for proofs)
 }
